@@ -35,7 +35,7 @@ SPECS['C04'] = {
     'rule': 'streams: 14 SM4/ZUC streaming contexts x 3 keys x every (fill in [0,unit), len in [0,50)) two-step feeding + finish, NULL-output size query before every call, canary-guarded output of exactly the reported size, in-place subset; CFB all s=1..16, XTS data units {16,17,31,32,48}, GCM tag 12..16; one-shot: 63 lengths x 3 keys x {CBC, CTR/CTR32 with 7 wrap counters, OFB, CFB s=1..16, CBC-MAC all cuts, XTS}; GCM: IV length 0..65 x AAD 0..33,4096 x 8 message lengths x tag lengths; CCM: nonce 6..14 x tag 2..18 x 11 AAD lengths (incl. 0xfeff/0xff00/0xff01) x 12 lengths (to 65537); AES-128/192/256 block+CBC, AES-CTR/GCM; ChaCha20 counters; ZUC-128/256 structure, EEA3/EIA3 bit lengths 1..300. distinct = parameter tuple; non-trivial = a definite reference value exists.',
     'bound': {'quick': 'builds fast + small(subset by deadline)', 'thorough': 'builds fast, asan, small, aesni, avx2; full CCM grid for all 3 keys'},
     'assumptions': ['3 keys / IVs per cipher, one plaintext pattern', 'OpenSSL correctness'],
-    'quick': [J('c04', 'fast', srcs=MREF), J('c04', 'asan', srcs=MREF, shards=8, deadline=100)],
+    'quick': [J('c04', 'fast', srcs=MREF), J('c04', 'asan', srcs=MREF, shards=8, deadline=100), J('c04', 'small', srcs=MREF, deadline=100), J('c04', 'aesni', srcs=MREF, cpu=['aes'], deadline=100), J('c04', 'avx2', srcs=MREF, cpu=['avx2'], deadline=100)],
     'thorough': [J('c04', 'fast', srcs=MREF), J('c04', 'asan', srcs=MREF), J('c04', 'small', srcs=MREF), J('c04', 'aesni', srcs=MREF, cpu=['aes']), J('c04', 'avx2', srcs=MREF, cpu=['avx2'])],
     'budget': {'quick': 150, 'thorough': 1500},
 }
